@@ -340,13 +340,13 @@ func c13RunAsk(line string) string {
 	}
 	patience := func() time.Duration {
 		if atomic.LoadInt32(&c13Deviations) >= 3 {
-			return 400 * time.Millisecond
+			return 300 * time.Millisecond
 		}
 		return 1500 * time.Millisecond
 	}
 	await := func(hint string, confirmBlocked bool) string {
 		if hint == "" {
-			time.Sleep(150 * time.Millisecond)
+			time.Sleep(60 * time.Millisecond)
 			return status()
 		}
 		deadline := time.Now().Add(patience())
